@@ -210,6 +210,11 @@ def handleSearch : Handler := fun st op args =>
         else "ok"
       | _, _, _ => "bad-args")
   | "anq", _ => some (st, "ok")
+  -- real-context cancellation (context -> watcher goroutine -> flag): the flag's arrival time is the scheduler's, so
+  -- the harness prints the property-level comparison; `C16.cancel_truncates` (for every monotone oracle) makes "ok"
+  -- the required answer, and a context of an earlier, finished call is no part of a later call's oracle
+  | "ctxc", _ => some (st, "ok")
+  | "ctxprev", _ => some (st, "ok")
   -- race-detector run of the repository's cancel tests (supporting evidence only; no model side)
   | "racecheck", _ => some (st, "ok")
   | "eqclaim", [a, b] => some (st, if a == b then "1" else "0")
